@@ -193,3 +193,16 @@ Definition py_arr_add2 := py_arr_zip Qplus.
 Definition py_arr_sub2 := py_arr_zip Qminus.
 Definition arr_sq (a : list Q) : list Q := map (fun x => x * x)%Q a.
 Definition py_arr_mul2 := py_arr_zip Qmult.
+
+(* timeslice entries of a correlator: None or an element; arithmetic on a None entry raises TypeError *)
+Definition is_none {A} (o : option A) : bool := match o with None => true | Some _ => false end.
+Definition py_ebin {E} (f : E -> E -> E) (a b : option E) : res E :=
+  match a, b with Some x, Some y => Ok (f x y) | _, _ => Raise TypeError end.
+Definition py_eun {E} (f : E -> E) (a : option E) : res E :=
+  match a with Some x => Ok (f x) | None => Raise TypeError end.
+(* list(np.roll(np.array(l, dtype=object), dt, axis=0)): entry i of the result is entry (i - dt) mod n of l *)
+Definition py_roll {A} (l : list A) (dt : Z) : list A :=
+  match List.length l with
+  | O => l
+  | n => let k := Z.to_nat (dt mod Z.of_nat n) in skipn (n - k) l ++ firstn (n - k) l
+  end.
